@@ -171,6 +171,14 @@ impl Out {
         self.total += 1;
     }
 
+    /// Start a new shard if the current one already holds `limit` events
+    /// (used at zone boundaries: a zone's events never straddle shards).
+    pub fn soft_cut(&mut self, limit: usize) {
+        if self.in_shard >= limit {
+            self.in_shard = self.shard_size;
+        }
+    }
+
     /// Force the next event into a new shard (e.g. per zone file).
     pub fn cut(&mut self) {
         self.in_shard = self.shard_size;
